@@ -43,7 +43,8 @@ def source(spec):
 
 
 ALIAS_SRC = ("import typing\nfrom typelib.py import compat\nNest = compat.TypeAliasType('Nest', 'list[Nest] | int')\n"
-             "Tree = compat.TypeAliasType('Tree', 'dict[str, Tree] | int')\n")
+             "Tree = compat.TypeAliasType('Tree', 'dict[str, Tree] | int')\n"
+             "Json = compat.TypeAliasType('Json', 'dict[str, Json] | list[Json] | int | None')\n")
 
 
 def build(spec):
@@ -140,6 +141,33 @@ def run_case(spec):
     return None
 
 
+class _Timeout(BaseException):
+    pass
+
+
+def _alarm(_s, _f):
+    raise _Timeout()
+
+
+def run_probe(spec, t):
+    """termination on a value with a non-numeric text leaf: the call must return or raise within 10 s"""
+    import signal
+    import typelib
+    value = {"x": "x", "nested": {"a": [1, {"c": "x"}]}, "pairs": [{"a": 1, "b": 2}]}[spec["probe"]]
+    old = signal.signal(signal.SIGALRM, _alarm)
+    signal.alarm(10)
+    try:
+        typelib.unmarshal(t, value)
+    except _Timeout:
+        return f"unmarshal({spec['alias']}, {value!r}) did not return within 10 s"
+    except Exception:
+        pass
+    finally:
+        signal.alarm(0)
+        signal.signal(signal.SIGALRM, old)
+    return None
+
+
 def run_alias(spec):
     import typelib
     name = f"c07_alias_{next(_n)}"
@@ -147,6 +175,8 @@ def run_alias(spec):
     sys.modules[name] = mod
     exec(compile(ALIAS_SRC, name, "exec"), mod.__dict__)
     t = getattr(mod, spec["alias"])
+    if "probe" in spec:
+        return run_probe(spec, t)
     d = spec["depth"]
     if spec["alias"] == "Tree":
         w, e = 7, 7
@@ -183,6 +213,9 @@ def specs(tier="quick", seed=0):
     for a in ("Tree", "Nest"):
         for d in depths:
             out.append({"alias": a, "depth": d})
+    for a in ("Json", "Tree", "Nest"):
+        for p in ("x", "nested", "pairs"):
+            out.append({"alias": a, "probe": p})
     # every simple cycle over 1..3 classes with each edge kind, every root kind
     for n in (1, 2, 3):
         cycle = [(i, (i + 1) % n) for i in range(n)]
